@@ -137,13 +137,16 @@ class Replayer:
                 m.configure_agents([{"name": c[0], "count": c[1], "properties": A.prop_v(c[2], c[3] if len(c) > 3 else None)} for c in h["cfg"]])
             elif op == "Reset":
                 m.reset()
+            elif op == "NewScheduler":
+                from BPTK_Py import SimultaneousScheduler
+                m.scheduler = SimultaneousScheduler()
             elif op == "SetState":
                 m.agent(h["id"]).state = h["st"]
             elif op == "SetVal":
                 m.agent(h["id"]).v = h["v"] / 2.0
             elif op == "Send":
                 m.enqueue_event(m._make_event(h, None))
-            elif op in ("Plan", "PlanDel", "PlanNew", "PlanSet", "PlanEnd"):
+            elif op in ("Plan", "PlanBegin", "PlanDel", "PlanNew", "PlanSet", "PlanEnd"):
                 m._plan.append(h)
             elif op == "RunStep":
                 m._calls, m._handled, m._times = [], [], []
